@@ -104,6 +104,10 @@ func c07Kind(x *runCtx, ctx context.Context, r *rand.Rand, k lab.Kind, enc proto
 			nip := (netIP)(ip)
 			addrs = append(addrs, protocol.RvTO2Addr{IPAddress: nip.ptr(), Port: 80, TransportProtocol: protocol.HTTPTransport})
 		}
+		// an address without a port (0: "the default port of the transport"): what the device hands to TO2 is the blob
+		// as the owner signed it, not a completed copy
+		dns0 := "owner-default-port.lab"
+		addrs = append(addrs, protocol.RvTO2Addr{DNSAddress: &dns0, Port: 0, TransportProtocol: protocol.HTTPSTransport})
 		if _, err := w.RegisterBlob(ctx, d.Cred.GUID, 3600, addrs, nil); err != nil {
 			fatal("TO0: %v", err)
 		}
